@@ -43,6 +43,8 @@ def check_config(out, solver, tw, d, nx, nrho, nsc, mask, order, script_name, ad
         s.write_state(0, nx, d, nrho, nsc)
         s.ok('h_sys_switches', [s.obj[0], mask, order])
         s.ok('h_sys_stepping', [s.obj[0], 1 if adaptive else 0, 7, 0])
+        ctl = [Fraction(1, 1000), Fraction(1, 10 ** 9), Fraction(1, 2), T.var('eabs'), T.var('erel')]     # hmin < h < hmax concrete (the setters re-adjust h otherwise), tolerances symbolic
+        s.ok('h_sys_control', [s.obj[0]] + ctl)
         stats_extra = []
         tcur = ti
         for seg in range(2):
@@ -55,6 +57,13 @@ def check_config(out, solver, tw, d, nx, nrho, nsc, mask, order, script_name, ad
                 return s
             log = s.log_since(mark)
             rhs = [e for e in log if e[0] == 'rhs']
+            for e in log:
+                # the driver is configured with the user's control parameters in GSL's argument order (hstart, epsabs, epsrel; hmin; hmax)
+                if e[0] == 'gsl_alloc' and (isinstance(e[3], Term) or e[3] != ctl[0] or e[4] is not ctl[3] or e[5] is not ctl[4]):
+                    dec.candidate('driver-control', 'the ODE driver is created with (hstart, epsabs, epsrel) = (%s, %s, %s) although Set_h / Set_abs_error / Set_rel_error were given (1/1000, eabs, erel) (%s)' % (
+                        T.show(e[3], 2), T.show(e[4], 2), T.show(e[5], 2), desc), **dict(info, kind='control'))
+                if e[0] == 'gsl_set' and e[1] in ('hmin', 'hmax') and (isinstance(e[3], Term) or e[3] != (ctl[1] if e[1] == 'hmin' else ctl[2])):
+                    dec.candidate('driver-control', 'the ODE driver receives %s = %s although Set_h_min / Set_h_max were given (1e-9, 1/2) (%s)' % (e[1], T.show(e[3], 2), desc), **dict(info, kind='control'))
             tnew = s.ok('h_sys_get_t', [s.obj[0]])
             texp = T.fadd(tcur, dt)
             if not (ctx.poly(tnew) - ctx.poly(texp)).is_zero():
@@ -182,6 +191,30 @@ def replay(chk, c):
     h = Harness('c04.cpp', LIBS)
     lib = h.native_lib()
     d, nx, nrho, nsc, mask, order = c['d'], c['nx'], c['nrho'], c['nsc'], c['mask'], c.get('order', 0)
+    if c.get('kind') == 'control':
+        # natively: interposed GSL entry points record what the driver receives
+        code = r'''
+import ctypes, sys, json
+lib = ctypes.CDLL(sys.argv[1])
+mem = ctypes.create_string_buffer(8192); p = ctypes.c_void_p(ctypes.addressof(mem))
+lib.h_sys_ctor.argtypes=[ctypes.c_void_p,ctypes.c_uint,ctypes.c_uint,ctypes.c_uint,ctypes.c_uint,ctypes.c_double]
+lib.h_sys_evolve.argtypes=[ctypes.c_void_p,ctypes.c_double]
+lib.h_sys_switches.argtypes=[ctypes.c_void_p,ctypes.c_uint,ctypes.c_uint]
+lib.h_sys_stepping.argtypes=[ctypes.c_void_p,ctypes.c_uint,ctypes.c_uint,ctypes.c_uint]
+lib.h_sys_control.argtypes=[ctypes.c_void_p]+[ctypes.c_double]*5
+lib.h_sys_ctor(p,2,2,1,1,0.0); lib.h_sys_switches(p,1,0); lib.h_sys_stepping(p,1,10,2)
+lib.h_sys_control(p,1e-3,1e-9,0.5,1e-7,1e-5)
+rc=lib.h_sys_evolve(p,0.1)
+out=(ctypes.c_double*5)(); lib.h_ctl_read(out)
+print(json.dumps({'rc':rc,'got':list(out)}))
+'''
+        so = build.native_so('c04.cpp')
+        p = subprocess.run([sys.executable, '-c', code, so], capture_output=True, text=True, timeout=120)
+        if p.returncode != 0 or not p.stdout.strip():
+            return True, 'native run crashed: %s' % p.stderr[-200:]
+        got = json.loads(p.stdout.strip().split('\n')[-1])['got']
+        want = [1e-3, 1e-7, 1e-5, 1e-9, 0.5]
+        return got != want, 'the real driver received (hstart, epsabs, epsrel, hmin, hmax) = %r for Set_h(1e-3), Set_abs_error(1e-7), Set_rel_error(1e-5), Set_h_min(1e-9), Set_h_max(0.5)' % (got,)
     n = d * d
     ss = nrho * n + nsc
     G = gellmann(d)
